@@ -11,7 +11,7 @@ import (
 )
 
 var c17Floor = []string{"after-rejected", "after-other-reading", "comment", "opts.none", "opts.W", "opts.P", "opts.I", "opts.WP", "opts.WI", "opts.PI", "opts.WPI", "spell.dq", "spell.brackets", "spell.neutral-under-option",
-	"lit.dquote", "lit.squote", "lit.backtick", "lit.backslash", "lit.bracket", "ident.dquote-in-backtick", "ident.bracket", "ident.space", "array.nested", "array.empty", "array.with-bracket-literal", "path.bracket", "where", "shape.derived", "shape.cte", "shape.union", "shape.with-shadow", "shape.with-body"}
+	"lit.dquote", "lit.squote", "lit.backtick", "lit.backslash", "lit.bracket", "ident.dquote-in-backtick", "ident.bracket", "ident.space", "array.nested", "array.empty", "array.with-bracket-literal", "array.glued", "ident.backslash-end", "path.bracket", "where", "shape.derived", "shape.cte", "shape.union", "shape.with-shadow", "shape.with-body"}
 
 func init() {
 	fw.Register(&fw.Prop{
@@ -154,6 +154,12 @@ func c17Run(c *fw.Case) {
 			bt = true
 			feats = append(feats, "ident.dquote-in-backtick")
 		}
+		if allowDQ && (force == "ident.backslash-end" || c.Chance(0.08)) {
+			// a back-ticked identifier that ends in a backslash (no escapes there)
+			s = strings.TrimRight(s, " ") + "\\"
+			bt = true
+			feats = append(feats, "ident.backslash-end")
+		}
 		if strings.ContainsAny(s, "[]") {
 			feats = append(feats, "ident.bracket")
 		}
@@ -242,6 +248,7 @@ func c17Run(c *fw.Case) {
 		items = append(items, c17Item{kind: "num", s: "1", alias: "jk"})
 	}
 	bareFrom := c.Chance(0.4)
+	glued := force == "array.glued" || c.Chance(0.15)
 	render := func(dq, brackets bool) string {
 		q := gen.QBacktick
 		if dq {
@@ -266,12 +273,16 @@ func c17Run(c *fw.Case) {
 			}
 			parts[i] = e + " AS " + gen.Ident(it.alias, aq)
 		}
+		// an array literal glued to the keyword in front of it
+		if glued && brackets && len(parts) > 0 && strings.HasPrefix(parts[0], "[") {
+			parts[0] = "\x00" + parts[0]
+		}
 		from := gen.Ident("root.t1", q)
 		if bareFrom {
 			// the table named without quotes: the text can then be read without the option too
 			from = "root.t1"
 		}
-		sql := "SELECT " + strings.Join(parts, ", ") + " FROM " + from
+		sql := strings.Replace("SELECT "+strings.Join(parts, ", ")+" FROM "+from, "SELECT \x00", "SELECT", 1)
 		if where != nil {
 			sql += " WHERE " + gen.RenderPred(where, gen.RenderOpts{Quote: q, StrStyle: style})
 		}
@@ -314,6 +325,9 @@ func c17Run(c *fw.Case) {
 	}
 	if brackets {
 		feats = append(feats, "spell.brackets")
+		if glued && len(items) > 0 && items[0].kind == "arr" {
+			feats = append(feats, "array.glued")
+		}
 	}
 	sql := render(dq, brackets)
 	// a comment holds neither quotes nor brackets, whatever characters it contains
